@@ -581,6 +581,23 @@ def _constraint_association_gain(
                 gain = sorted_distances[i, 3]
                 bisect.insort(transfer[cur, dest], (gain, ind))
 
+    if (counters > ave + leftclose).any():
+        # Swaps freeze the points they move. When the initial labels are far
+        # from balanced (kmeans0=False), a cluster may still be too big
+        # with no free point left: plain transfers finish the job.
+        for i in range(0, sorted_distances.shape[0]):
+            ind = int(sorted_distances[i, 1])
+            dest = int(sorted_distances[i, 2])
+            cur = labels[ind]
+            if (
+                cur != dest
+                and counters[dest] < ave + leftclose[dest]
+                and counters[cur] > ave + leftclose[cur]
+            ):
+                labels[ind] = dest
+                counters[cur] -= 1
+                counters[dest] += 1
+
     neg = (counters < ave).sum()
     assert neg <= 0, f"The algorithm failed, counters={counters}"
 
